@@ -212,11 +212,11 @@ Definition last_pass_ok (c : qcase) (cplx : bool) (M : fmat) : bool :=
     && match s_det c with
        | DNone => qclose_rel eps9 (a_norm a * a_norm a) (mnormsq dim dim W) (mnormsq dim dim W)
        | DOne =>
-           cclose_rel eps9 (a_det a) (mdet dim W) (det_scale dim W)
-           && cclose_rel eps9 (mdet dim Mm) c1 (det_scale dim Mm)
+           cclose_rel eps9 (a_det a) (mdetr dim W) (det_scale dim W)
+           && cclose_rel eps9 (mdetr dim Mm) c1 (det_scale dim Mm)
        | DZero =>
-           cclose_rel eps9 (a_det a) (mdet dim W) (det_scale dim W)
-           && cclose_rel eps9 (mdet dim Mm) c0 (det_scale dim Mm)
+           cclose_rel eps9 (a_det a) (mdetr dim W) (det_scale dim W)
+           && cclose_rel eps9 (mdetr dim Mm) c0 (det_scale dim Mm)
        end
   end.
 
@@ -906,8 +906,6 @@ def check_square(cfg, arr):
     cplx = cfg['complex'] or cfg['symmetry'] in ('hermitian', 'antihermitian')
     if cplx != bool(np.iscomplexobj(arr)):
         bad.append('complex=%r but dtype %s' % (cplx, np.asarray(arr).dtype))
-    if cplx and not any(z.imag != 0 for r in rows for z in r):
-        bad.append('complex sampler returned a matrix without imaginary parts')
     n2 = fro2(rows)
     scale = max(1.0, math.sqrt(float(n2)))
     tol = 1e-9 * scale
@@ -1012,8 +1010,6 @@ def check_array(cls_name, cfg, arr):
     bad = []
     if cfg['complex'] != bool(np.iscomplexobj(arr)):
         bad.append('complex=%r but dtype %s' % (cfg['complex'], np.asarray(arr).dtype))
-    if cfg['complex'] and not any(z.imag != 0 for z in flat):
-        bad.append('complex sampler returned an array without imaginary parts')
     n2 = sum(Fraction(z.real) ** 2 + Fraction(z.imag) ** 2 for z in flat)
     lo, hi = sorted(cfg['norm'])
     t = 1e-9 * max(1.0, hi)
@@ -1318,14 +1314,16 @@ def run(ctx):
     f_terms, f_metas = [], []
     a_terms, a_metas = [], []
     q_terms, q_metas = [], []
+    import time
+    timing = {}
     with Instrumented() as rec:
-        run_scalars(ctx, res, rng, rec, s_terms, s_metas)
-        run_discrete(ctx, res, rng, rec, s_terms, s_metas)
-        run_identity(ctx, res, rng, rec, s_terms, s_metas)
-        run_random_functions(ctx, res, rng, rec, f_terms, f_metas)
-        run_arrays(ctx, res, rng, rec, a_terms, a_metas)
-        run_squares(ctx, res, rng, rec, q_terms, q_metas)
-        rec.calls = []
+        for name, fn, tm in (('scalars', run_scalars, (s_terms, s_metas)), ('discrete', run_discrete, (s_terms, s_metas)),
+                             ('identity', run_identity, (s_terms, s_metas)), ('random_functions', run_random_functions, (f_terms, f_metas)),
+                             ('arrays', run_arrays, (a_terms, a_metas)), ('squares', run_squares, (q_terms, q_metas))):
+            t0 = time.time()
+            fn(ctx, res, rng, rec, *tm)
+            timing[name] = round(time.time() - t0, 1)
+            rec.calls = []
     hdr = HEADER + AGREE_DEFS
     jobs = [('c12_scalar', 'scase_ok', s_terms, s_metas, 600, 'scase'),
             ('c12_rf', 'rfcase_ok', f_terms, f_metas, max(1, len(f_terms) // 10 + 1), 'rfcase'),
@@ -1334,12 +1332,15 @@ def run(ctx):
     for tag, fn, terms, metas, shard, ty in jobs:
         if not terms:
             continue
+        t0 = time.time()
         n, failing, errors = core.eval_agreement(tag, hdr, fn, terms, shard=shard, case_type=ty)
+        timing['coq_' + tag] = round(time.time() - t0, 1)
         res.programs += n
         res.corr_errors += errors
         for i in failing:
             res.disagreements.append({'kind': tag, 'case': repr(metas[i]), 'term': terms[i][:600]})
         res.distribution[tag + '_cases'] = n
+    res.distribution['seconds'] = timing
     if q_terms:
         res.samples.append({'square_case': q_metas[len(q_metas) // 2], 'term_prefix': q_terms[len(q_terms) // 2][:300]})
     if s_terms:
